@@ -230,12 +230,100 @@ class LinCtx:
         self.solver_time += time.time() - t0
         return {b"T": True, b"F": False}.get(out)
 
+    def evaluate_point(self, inputs):
+        """all variables of the context at one input (var index -> value for the 'in' variables): products and truncation quotients are functions
+        of earlier variables and are computed in creation order; returns {name: value}, or None when the context has a variable of another kind
+        (a select, a division quotient, a havoc) or a side condition rules the point out"""
+        quot = {}
+        for (fk, bits), (r, q) in self.wraps.items():
+            if len(q.t) == 1:
+                quot[list(q.t)[0]] = (r, bits)
+        val = {}
+        for i in range(len(self.names)):
+            k = self.kind.get(i)
+            if k == "in":
+                if i not in inputs:
+                    return None
+                val[i] = inputs[i]
+            elif isinstance(k, tuple) and k[0] == "prod":
+                val[i] = sum((c * val[v] for v, c in k[1].t.items()), k[1].c) * sum((c * val[v] for v, c in k[2].t.items()), k[2].c)
+            elif i in quot:
+                r, bits = quot[i]
+                a = r.c + sum(c * val[v] for v, c in r.t.items() if v != i)
+                val[i] = a >> bits
+            else:
+                return None
+            if not (self.vlo[i] <= val[i] <= self.vhi[i]):
+                return None
+        return {self.names[i]: v for i, v in val.items()}
+
+    def point_search(self, mismatch, trials=6, per_query_ms=8000, seed=7):
+        """Cheapest witness search after the solver gave up on an identity: every input word fixed (boundary patterns and random words) and every
+        opaque word product a real product, so the recorded side conditions determine all quotients and carries and the query is an evaluation of the
+        encoding at one input.  Returns the first environment with mismatch(env), else None.  (A routine that is wrong on a sizeable fraction of
+        its inputs is found here in a second; the rare cases are left to wrap_search / concretised_search.)"""
+        import random
+        rnd = random.Random(seed)
+        ins = [i for i, k in self.kind.items() if k == "in"]
+        if not ins:
+            return None
+        base = list(self.solver.assertions())
+        for i, k in self.kind.items():
+            if isinstance(k, tuple) and k[0] == "prod":
+                base.append(self.zv[i] == self.z(k[1]) * self.z(k[2]))
+        pats = [0, 1, (1 << 64) - 1, 1 << 63, (1 << 63) - 1]
+        direct = True
+        for trial in range(trials * 8):
+            if not direct and trial >= trials:
+                break
+            point = {}
+            for i in ins:
+                hi = self.vhi[i]
+                v = rnd.choice(pats) if rnd.random() < 0.15 else rnd.getrandbits(rnd.choice((64, 64, 64, 62, 60, 56)))
+                point[i] = v & hi if hi == (1 << hi.bit_length()) - 1 else min(v, hi)
+            env = self.evaluate_point(point) if direct else None
+            if env is not None:
+                # the recorded side conditions (operand domains, range facts) must hold at the point: with every variable fixed this is an evaluation
+                s = z3.Solver()
+                s.set("timeout", per_query_ms)
+                s.add(*base)
+                for j, nm in enumerate(self.names):
+                    s.add(self.zv[j] == env[nm])
+                if s.check() != z3.sat:
+                    continue
+            if env is None and direct:
+                # either a variable kind the evaluator does not know (then: the solver evaluates the encoding) or a point outside the domain
+                direct = all(k == "in" or (isinstance(k, tuple) and k[0] == "prod") or k == "quot" for k in self.kind.values()) and \
+                    len([1 for k in self.kind.values() if k == "quot"]) == len([1 for (r, q) in self.wraps.values() if len(q.t) == 1])
+                if direct:
+                    continue
+            if env is None:
+                s = z3.Solver()
+                s.set("timeout", per_query_ms)
+                s.add(*base)
+                for i, v in point.items():
+                    s.add(self.zv[i] == v)
+                if s.check() != z3.sat:
+                    continue
+                m = s.model()
+                env = {self.names[j]: m.eval(self.zv[j], model_completion=True).as_long() for j in range(len(self.names))}
+            if env is not None:
+                try:
+                    if mismatch(env):
+                        return env
+                except Exception:
+                    pass
+        return None
+
     def wrap_search(self, mismatch, extra_forms=(), per_query_ms=2500, budget_s=150, realise=False):
         """Lost-carry search, used when the solver gives up on an identity.  For every truncation recorded by this context (and every extra form, e.g. a
         carry the assembly interpreter saw dropped): is there an input that makes its quotient non-zero (small satisfiability queries on a fresh
         incremental-core solver)?  `mismatch(env)` is evaluated at each model; the first environment (name -> value) for which it is true is
         returned, else None.  An input found this way is a concrete counterexample in its own right."""
         t0 = time.time()
+        hit = self.point_search(mismatch)
+        if hit is not None:
+            return hit
         base = list(self.solver.assertions())
         if realise:
             # the opaque word products must really be products in the model (non-linear queries; the model is then a real input)
@@ -319,13 +407,15 @@ class LinCtx:
             s.pop()
         return None
 
-    def prove_zero(self, a, label="", timeout_ms=None):
+    def prove_zero(self, a, label="", timeout_ms=None, hard_s=None):
         if a.is_const():
             return a.c == 0
         if a.lo == 0 and a.hi == 0:
             return True
         if a.lo > 0 or a.hi < 0:
             return False
+        if hard_s is not None:
+            return self.prove_hard(self.z(a) == 0, label, hard_s)
         return self.prove(self.z(a) == 0, label, timeout_ms)
 
     def assume_zero(self, a, label):
